@@ -42,9 +42,9 @@ type Case struct {
 	// KeyMap, if set, rewrites every finding key of this case (used for start states that the
 	// public API cannot produce, so that their findings never hide or pose as API-reachable ones).
 	KeyMap func(key string) string
-	Cfg   Config
-	Setup func() func()
-	After func(o *Outcome) []Finding
+	Cfg    Config
+	Setup  func() func()
+	After  func(o *Outcome) []Finding
 }
 
 // Driver accumulates the evidence of all cases of one test.
